@@ -37,7 +37,6 @@ func init() { Register("taskfn", runTaskfn) }
 
 const tfBase = int64(1700000000)
 
-
 // StubTask is a tasks.Task backed by plain data (what GenerateTaskRefs reads from a live task).
 type StubTask struct {
 	Name string
@@ -48,10 +47,10 @@ type StubTask struct {
 var _ jobtasks.Task = (*StubTask)(nil)
 
 func (s *StubTask) GetOwnerReferences() []metav1.OwnerReference { return nil }
-func (s *StubTask) GetName() string                            { return s.Name }
-func (s *StubTask) GetTaskRef() execution.TaskRef              { return *s.Ref.DeepCopy() }
-func (s *StubTask) GetKind() string                            { return "Stub" }
-func (s *StubTask) GetRetryIndex() (int64, bool)               { return s.Ref.RetryIndex, true }
+func (s *StubTask) GetName() string                             { return s.Name }
+func (s *StubTask) GetTaskRef() execution.TaskRef               { return *s.Ref.DeepCopy() }
+func (s *StubTask) GetKind() string                             { return "Stub" }
+func (s *StubTask) GetRetryIndex() (int64, bool)                { return s.Ref.RetryIndex, true }
 func (s *StubTask) GetParallelIndex() (*execution.ParallelIndex, bool) {
 	return s.Ref.ParallelIndex, s.Ref.ParallelIndex != nil
 }
@@ -73,12 +72,12 @@ func EncTasks(l []jobtasks.Task) string {
 }
 
 type tfGen struct {
-	c     *Ctx
-	rng   *rand.Rand
-	clk   *fakeclock.FakeClock
-	now   time.Time
-	big   bool // thorough tier: larger shapes
-	seq   int  // fresh task names
+	c   *Ctx
+	rng *rand.Rand
+	clk *fakeclock.FakeClock
+	now time.Time
+	big bool // thorough tier: larger shapes
+	seq int  // fresh task names
 }
 
 var tfDefaultIndex = execution.ParallelIndex{IndexNumber: i64(0)}
@@ -113,7 +112,7 @@ func (g *tfGen) setNow(t time.Time) {
 	g.c.Emit(fmt.Sprintf("taskfn.env %s %s", NanoStr(t), EncPIndexV(tfDefaultIndex)), "ok")
 }
 
-func (g *tfGen) pick(n int) int { return g.rng.Intn(n) }
+func (g *tfGen) pick(n int) int    { return g.rng.Intn(n) }
 func (g *tfGen) chance(p int) bool { return g.rng.Intn(100) < p }
 
 // randTime: boundary-biased instant around now.
